@@ -612,6 +612,9 @@ func (ex *Exec) convert(fr *Frame, st *State, v Val, from, to types.Type) Val {
 	if _, ok := fu.(*types.Pointer); ok {
 		return v
 	}
+	if _, ok := fu.(*types.Signature); ok {
+		return v
+	}
 	if tok && tb.Kind() == types.UnsafePointer {
 		return v
 	}
